@@ -14,6 +14,9 @@ PENDING = {}
 def main():
     props = [json.loads(l) for l in open(os.path.join(vplib.VERIF, "properties.jsonl"))]
     checks, na = [], []
+    # a property is claimed only after the lead has seen its quick check exit 0 on the unchanged tree
+    vf = os.path.join(vplib.VERIF, "tools", "validated.txt")
+    validated = set(open(vf).read().split()) if os.path.exists(vf) else set()
     for p in props:
         pid = p["id"]
         try:
@@ -21,6 +24,8 @@ def main():
             man = getattr(mod, "MANIFEST", None)
         except ModuleNotFoundError:
             man = None
+        if man and man.get("claimed") and pid not in validated:
+            man = dict(man, claimed=False, reason="check built; not yet validated by a full run on the unchanged tree in this session")
         if not man or not man.get("claimed"):
             reason = (man or {}).get("reason") or PENDING.get(pid) or \
                 "no check built yet for this property (time); the technique applies, see DESIGN.md section 3 for the plan"
